@@ -85,3 +85,53 @@ Proof. exact ex_results. Qed.
 Example C12_attach_nonvacuous :
   r_ret ex_ra = 20 /\ strict_valid ex_dict (r_out ex_ra) = Some ex_b1 /\ strict_valid [] (r_out ex_ra) = None.
 Proof. exact ex_attach. Qed.
+
+(* ================================================================ HC, lz4mid levels (compression levels 1 and 2)
+   - C12_hc_mid_loadDict: LZ4_loadDictHC of ANY size at an lz4mid level: only the last min(size, 64 KB) bytes are designated,
+     dictLimit = lowLimit = 64 KB, every entry of both hash tables (LZ4MID_fillHTable, both loops) is an index below
+     64 KB + dictSize, the context is clean and can serve as a dictionary context ([d_ok]).
+   - C12_hc_mid_loadDict_roundtrip: loadDictHC + a block ANYWHERE in memory decodes with the dictionary bytes.
+   - C12_hc_mid_attach_roundtrip: LZ4_attach_HC_dictionary onto a working stream that has not started; whenever the call
+     stays in the model (first block > 4 KB, both streams at lz4mid levels: the dictionary context is copied) the block
+     decodes with the dictionary bytes.  Calls that reach the dictionary-context search (<= 4 KB, cross-level) are NOT
+     modelled: direct oracle only (that is where the seeded change C12_2 lives). *)
+From LZ4V Require Import Model.HcEmit Model.HcMid Model.HcMidStream Proofs.HcMidStreamProofs Proofs.HcMidStreamHist Proofs.HcMidStreamExamples.
+
+Theorem C12_hc_mid_loadDict :
+  forall m c a n c' r,
+  0 <= n -> 0 <= a -> hs_loadDict m c a n = Some (c', r) ->
+  hs_ok c' /\ d_ok (hs_core c') /\ hs_dctx c' = None /\ r = Z.min n K64 /\
+  k_prefixStart (hs_core c') = a + n - r /\ k_end (hs_core c') = a + n /\
+  k_dictLimit (hs_core c') = K64 /\ k_lowLimit (hs_core c') = K64 /\ k_dirty (hs_core c') = false /\
+  is_mid (k_level (hs_core c')) = true.
+Proof. exact hs_loadDict_ok. Qed.
+Print Assumptions C12_hc_mid_loadDict.
+
+Theorem C12_hc_mid_loadDict_roundtrip :
+  forall m c a n c' r src k cap ret consumed out hw c'',
+  hmem_ok m -> 0 <= n -> 0 <= a -> 0 < src -> 0 <= k < 2147483648 -> 0 <= cap ->
+  hs_loadDict m c a n = Some (c', r) ->
+  hs_continue m c' src k cap = Some (HRes ret consumed out hw c'') ->
+  (compressBound k <= cap -> k <= LZ4_MAX_INPUT_SIZE -> 0 < ret) /\
+  (0 < ret -> ret = Z.of_nat (length out) /\ ret <= Z.max cap (compressBound k) /\ consumed = k /\
+              win_strict (load_list m a (Z.to_nat n)) out (load_list m src (Z.to_nat k))).
+Proof. exact hc_loadDict_roundtrip. Qed.
+Print Assumptions C12_hc_mid_loadDict_roundtrip.
+
+Theorem C12_hc_mid_attach_roundtrip :
+  forall m c0 d a n dc r src k cap ret consumed out hw c'',
+  hmem_ok m -> hs_ok c0 -> k_dirty (hs_core c0) = false -> k_prefixStart (hs_core c0) = 0 ->
+  0 <= n -> 0 <= a -> 0 < src -> 0 <= k < 2147483648 -> 0 <= cap ->
+  hs_loadDict m d a n = Some (dc, r) ->
+  hs_continue m (hs_attach c0 (Some dc)) src k cap = Some (HRes ret consumed out hw c'') ->
+  (compressBound k <= cap -> k <= LZ4_MAX_INPUT_SIZE -> 0 < ret) /\
+  (0 < ret -> ret = Z.of_nat (length out) /\ ret <= Z.max cap (compressBound k) /\ consumed = k /\
+              win_strict (load_list m a (Z.to_nat n)) out (load_list m src (Z.to_nat k))).
+Proof. exact hc_attach_roundtrip. Qed.
+Print Assumptions C12_hc_mid_attach_roundtrip.
+
+Example C12_hc_mid_nonvacuous :
+  hmem_ok ex_m /\
+  strict_valid ex_dict (ex_hout ex_hst1 (HContinue 3000 78 200)) = Some ex_b1 /\
+  strict_valid [] (ex_hout ex_hst1 (HContinue 3000 78 200)) = None.
+Proof. exact (conj ex_hmem ex_hresults). Qed.
